@@ -16,18 +16,36 @@
      balanced_inward  = full range and content range of the first node containing pos,
                         then of its first child, and so on.
 
-   Level B (NOT proved; the full statement is
-       forall sheet, scan (render sheet) = events_forest (tree sheet)
-   over the generator grammar: pseudo-selectors, at-rules with parenthesised conditions,
-   strings and comments containing braces, colons and semicolons, SCSS variables, custom
-   properties) is covered by the differential correspondence run of harness/props/c10.py,
-   which compares scan / match / balanced_* of the implementation with the extracted
-   model on every generated stylesheet and every position, and by the ground-truth oracle.
-   What IS proved about the scanner for all strings is in props/C16Css.v (ordered,
-   well-formed events), which is the hypothesis under which the folds behave. *)
-From Coq Require Import ZArith List.
-From Emmet Require Import lib.Base model.CssScan model.CssMatch model.CssTree
-     proofs.CssScanProofs proofs.CssTreeProofs.
+   Level B (proved here, for ALL sheets of the grammar of model/CssSheet.v, no bound on
+   nesting, number of items, lengths or offsets): [render] writes a sheet as text, [tree] lays
+   it out as the offset tree, [events] are the callbacks of that tree.
+     css_scan_render  scan (render sh) = events sh          -- the scanner MODEL on the TEXT
+     css_tree_wf      the layout is a well-formed tree of a document of that length
+     C10_match_text / C10_outward_text / C10_inward_text    -- composition with Level A:
+                      match, balanced_outward, balanced_inward applied to the TEXT return what
+                      the sheet says (innermost rule or declaration, chain, first children).
+   Grammar (CssSheet.v has the exact definition): nested rules and `name: value;` declarations
+   at any depth (also at top level: `$x: 1;`); selectors, names and values are runs of tokens
+   and gaps; a token is a plain character (anything but white space, quotes and { } ; : ( ) /,
+   so letters, digits, . # - _ > + , $ @ % ! * [ ] = & \ and all non-ASCII characters), a quoted
+   string (content may hold { } : ; ( ) comment markers, the other quote, and backslash + any
+   character, e.g. an escaped quote), `(`, `)`, a `:` inside parentheses, two or more colons
+   followed by a plain character outside parentheses, or a `/` not followed by `*`; selectors may contain delimiting single
+   colons (`a:hover`, `:root`, `a:b:c`); a gap is any mix of white space and comments (comment
+   bodies free of `*/`) and may stand at every place where the grammar has one: before and
+   after selectors, names, values, between tokens, around `{` `:` `;` `}`, at the end.
+   Core, pseudo-selectors, parenthesised at-rule conditions, strings, comments, SCSS variables
+   and custom properties are all instances; CssRenderExamples.v has one sheet per construct.
+   Outside the grammar, by design: `;` `{` `}` inside parentheses outside strings/comments (the
+   listed finding: the scanner does treat them as delimiters), a `/` in front of `*` or at the
+   end of a run, a single `:` at depth 0 inside a value, a declaration without its `;`, empty
+   names/values/selectors, unterminated strings and comments.  Those remain covered by the
+   differential correspondence run of harness/props/c10.py (implementation vs. extracted model
+   on every generated sheet and position) and by the ground-truth oracle.
+   What is proved about the scanner for ALL strings is in props/C16Css.v. *)
+From Coq Require Import ZArith List String.
+From Emmet Require Import lib.Base model.CssScan model.CssMatch model.CssTree model.CssSheet
+     proofs.CssScanProofs proofs.CssTreeProofs proofs.CssRender proofs.CssRenderExamples.
 Import ListNotations.
 Local Open Scope Z_scope.
 
@@ -71,3 +89,75 @@ Example C10_nonvacuous :
   innermost_forest f 18 = Some (mkMR true 16 21 19 20) /\
   inward_forest s f 13 = [(12, 23); (16, 21); (19, 20)].
 Proof. vm_compute. repeat split; try reflexivity; intro; discriminate. Qed.
+
+(* ------------------------------------------------------------------ Level B *)
+(* the scanner on the text of a sheet produces exactly the callbacks of the sheet *)
+Theorem css_scan_render :
+  forall sh : sheet, wf_sheet sh = true -> scan (render sh) = events sh.
+Proof. exact scan_render. Qed.
+Print Assumptions css_scan_render.
+
+(* which characters are plain tokens *)
+Theorem css_plain_chars :
+  forall c : char, plain c = true <->
+    ~ In c [9; 10; 13; 32; 160; 34; 39; 123; 125; 59; 58; 40; 41; 47]%N.
+Proof. exact plain_iff. Qed.
+Print Assumptions css_plain_chars.
+
+Theorem css_tree_wf :
+  forall sh : sheet, wf_forest (Z.of_nat (length (render sh))) (tree sh).
+Proof. exact tree_wf. Qed.
+Print Assumptions css_tree_wf.
+
+(* composition with Level A: the matcher on the TEXT *)
+Theorem C10_match_text :
+  forall (sh : sheet) (pos : Z), wf_sheet sh = true ->
+    css_match (render sh) pos = innermost_forest (tree sh) pos.
+Proof. exact match_text. Qed.
+Print Assumptions C10_match_text.
+
+Theorem C10_outward_text :
+  forall (sh : sheet) (pos : Z), wf_sheet sh = true ->
+    balanced_outward (render sh) pos = Ok (pushed (chain_forest (render sh) (tree sh) pos)).
+Proof. exact outward_text. Qed.
+Print Assumptions C10_outward_text.
+
+Theorem C10_inward_text :
+  forall (sh : sheet) (pos : Z), wf_sheet sh = true ->
+    balanced_inward (render sh) pos = Ok (inward_forest (render sh) (tree sh) pos).
+Proof. exact inward_text. Qed.
+Print Assumptions C10_inward_text.
+
+(* the excluded case (listed finding css:semicolon-or-brace-inside-parentheses-delimits), on the
+   model: in  a{b:f(;);}  the value is cut at the `;` inside the parentheses and match() at
+   position 7 does not return the declaration 2..9 with value 4..8; in  a{b:f({);}  the `{`
+   inside the parentheses opens a block *)
+Theorem C10_paren_delimiter_refuted :
+  scan (T "a{b:f(;);}") =
+    [mkEv Selector 0 1 1; mkEv PropertyName 2 3 3; mkEv PropertyValue 4 6 6; mkEv PropertyName 7 8 8;
+     mkEv BlockEnd 9 10 9] /\
+  css_match (T "a{b:f(;);}") 7 <> Some (mkMR true 2 9 4 8) /\
+  scan (T "a{b:f({);}") =
+    [mkEv Selector 0 1 1; mkEv Selector 2 6 6; mkEv PropertyName 7 8 8; mkEv BlockEnd 9 10 9].
+Proof. exact paren_delimiter_refuted. Qed.
+Print Assumptions C10_paren_delimiter_refuted.
+
+(* non-vacuity: one well-formed sheet per construct with the text it renders to, and a sheet
+   using all of them whose callbacks are those emmet.css_matcher.scan reports for its text *)
+Example css_render_nonvacuous :
+  (wf_sheet sh_core = true /\ render sh_core = tx_core) /\
+  (wf_sheet sh_pseudo = true /\ render sh_pseudo = tx_pseudo) /\
+  (wf_sheet sh_at = true /\ render sh_at = tx_at) /\
+  (wf_sheet sh_str = true /\ render sh_str = tx_str) /\
+  (wf_sheet sh_com = true /\ render sh_com = tx_com) /\
+  (wf_sheet sh_var = true /\ render sh_var = tx_var) /\
+  (wf_sheet sh_slash = true /\ render sh_slash = tx_slash) /\
+  (wf_sheet sh_all = true /\ render sh_all = tx_all /\ events sh_all = ev_all) /\
+  css_match tx_all 80 = Some (mkMR true 62 96 69 95) /\
+  balanced_outward tx_all 80 = Ok [(69, 95); (62, 96); (62, 103); (29, 105); (0, 107)] /\
+  balanced_inward tx_all 30 = Ok [(29, 105); (62, 103); (62, 96); (69, 95)].
+Proof.
+  pose proof ex_pseudo as (Hp1 & Hp2 & _). pose proof ex_slash as (Hs1 & Hs2 & _).
+  repeat split; try apply ex_core; try apply ex_at; try apply ex_str; try apply ex_com; try apply ex_var;
+    try apply ex_all; try assumption; vm_compute; reflexivity.
+Qed.
